@@ -22,10 +22,10 @@ from ..objectmodel.builder import (
     ModelBuilderSemantics,
     TypeContainer,
 )
-from ..util import hasha
+from ..util import hasha, make_hashable
 
 
-__compiled_grammar_cache: dict[tuple[str | None, str, int], g.Grammar] = {}
+__compiled_grammar_cache: dict[tuple[Any, ...], g.Grammar] = {}
 
 
 def boot_grammar() -> g.Grammar:
@@ -62,13 +62,6 @@ def compile(
         )
     cache = __compiled_grammar_cache
 
-    key = (name, hasha(grammar), id(semantics))
-    if key in cache:
-        model = cache[key]
-    else:
-        gen = TatSuParserGenerator(name, **settings)
-        model = cache[key] = gen.parse(grammar, **settings)
-
     asmodel = not semantics and (
         asmodel
         or isinstance(builderconfig, BuilderConfig)
@@ -76,6 +69,26 @@ def compile(
         or typedefs is not None
         or constructors is not None
     )
+    # NOTE: everything the returned model depends on is part of the key,
+    #   and a cached model is returned as it was built (never reconfigured)
+    builder_key = (
+        (id(builderconfig), id(basetype), id(typedefs), id(constructors), synthok)
+        if asmodel
+        else None
+    )
+    key = (
+        name,
+        hasha(grammar),
+        id(semantics),
+        builder_key,
+        make_hashable(sorted(settings.items())),
+    )
+    if key in cache:
+        return cache[key]
+
+    gen = TatSuParserGenerator(name, **settings)
+    model = cache[key] = gen.parse(grammar, **settings)
+
     if semantics is not None:
         model.semantics = semantics
     elif asmodel:
